@@ -1152,3 +1152,30 @@ def r99(ctx: Ctx) -> RuleReport:
         else:
             rep.undecided(key, fi.loc(r), norm(r)[:60])
     return rep
+
+
+# ---------------------------------------------------------------------------------------------
+@rule('R148', 'the parser never replaces text it has read by a constant because of what the text says (a symbol spelled None, null, - ... is a symbol)')
+def r148(ctx: Ctx) -> RuleReport:
+    rep = RuleReport('R148', r148.title, floor=0)
+    n = 0
+    funcs = list(ctx.repo.all_functions()) if getattr(ctx, '_is_probe', False) else list(ctx.repo.module('penman._parse').all_funcs)
+    for fi in funcs:
+        for st in walk_local(fi.node):
+            if not (isinstance(st, ast.Assign) and len(st.targets) == 1 and isinstance(st.targets[0], ast.Name) and isinstance(st.value, ast.Constant)):
+                continue
+            x = st.targets[0].id
+            for f, pol in facts_ex(ctx, fi, st):
+                try:
+                    e = ast.parse(f, mode='eval').body
+                except SyntaxError:
+                    continue
+                if isinstance(e, ast.Compare) and len(e.ops) == 1 and isinstance(e.ops[0], (ast.Eq, ast.In)) and pol and norm(e.left) == x:
+                    okc, cv = try_fold(e.comparators[0])
+                    if okc and (isinstance(cv, str) and cv != '' or (isinstance(cv, (tuple, list, set, frozenset)) and cv and all(isinstance(y, str) and y for y in cv))):
+                        n += 1
+                        rep.violation(f'{fi.fq}: `{norm(st)}` under `{f}`', fi.loc(st), f'when the text that was read is {cv!r} it is replaced by {st.value.value!r}: a symbol with that '
+                                      f'spelling is legal in the notation ("(n / None)", ":value None") and no longer comes back as what was written - the triple conjunction '
+                                      f'"instance(n, None)" is read as a triple without target')
+    rep.analysed['replacements'] = n
+    return rep
